@@ -1,5 +1,6 @@
 import Driver.Loop
 import Driver.Smb
 import Driver.SmbDialects
+import Driver.SmbHdrSf
 
-def main : IO Unit := Driver.run (Driver.Smb.entries ++ Driver.SmbDialects.entries)
+def main : IO Unit := Driver.run (Driver.Smb.entries ++ Driver.SmbDialects.entries ++ Driver.SmbHdrSf.entries)
